@@ -3,7 +3,7 @@
    `msg.size.to_bytes(4, 'big') + msg.dgram`, OscScore.raw, and an INDEPENDENT reader of the raw
    form (a length-prefix splitter that knows nothing about OSC).   Definitions only. *)
 From Coq Require Import ZArith QArith List Bool.
-Require Import SC3.model.Osc SC3.model.KProg SC3.model.KNrt.
+Require Import SC3.model.Osc SC3.model.OscSize SC3.model.OscDomain SC3.model.KProg SC3.model.KNrt.
 Import ListNotations.
 Open Scope Z_scope.
 
@@ -78,3 +78,8 @@ Definition nrt_finish_inside (qk : quirks) (tail T : Q) (st : nstate) : nstate :
 (* the routine that runs LAST closes the score at its logical time (= the time of the last wake-up) *)
 Definition nrt_run_closed_inside (qk : quirks) (p : prog) (fuel : nat) (tail : Q) : nstate :=
   let st := nrt_loop qk p fuel (nrt_main qk p) in nrt_finish_inside qk tail (n_mtime st) st.
+
+(* the score lies inside the encoder's documented domain (C06: model/OscDomain.v in_domain, size_ok): decidable *)
+Definition entry_in_domain (s : sentry) : bool :=
+  in_domain true (to_arg (s_b s)) && size_ok (to_arg (s_b s)).
+Definition score_in_domain (sc : list sentry) : bool := forallb entry_in_domain sc.
